@@ -11,8 +11,8 @@ Proof. intros op. destruct op; split; reflexivity. Qed.
 Lemma sx_level_le_cond : forall e, (L_Cond <? sx_level e) = false.
 Proof. intros e. destruct e; try reflexivity. destruct op; reflexivity. Qed.
 
-Lemma sx_paren_decision : forall names lit_str e a,
-  sx_print names lit_str e a = paren_if (a <? sx_level e) (sx_print names lit_str e L_Cond).
+Lemma sx_paren_decision : forall names e a,
+  sx_print names e a = paren_if (a <? sx_level e) (sx_print names e L_Cond).
 Proof. intros. unfold sx_print. now rewrite sx_level_le_cond. Qed.
 
 (* the legacy right level of + (the same as the left one) would not satisfy the table condition *)
@@ -80,7 +80,7 @@ Qed.
 
 (* a text piece followed by the `{{` of a binding: no binding start before that `{{` *)
 Theorem text_piece_then_binding : forall s,
-  has_double_lbrace (text_piece false s ++ [123]) = false.
+  has_double_lbrace (text_piece true s ++ [123]) = false.
 Proof.
   intros s. unfold text_piece.
   pose proof (escape_html_body_no_binding_start s) as Ht.
